@@ -80,6 +80,22 @@ PROPS = {
         technique="runtime monitoring: round-trip oracle (print with fuzzed legal spelling, read back, compare ASTs), both feature configurations",
         assumptions=["grammars the validator rejects are counted, not judged (C06 owns acceptance)"],
     ),
+    "C09": dict(
+        runs=BOTH_CONFIGS("c09"),
+        rule=("texts <= 4 KiB: (i) char- and token-level mutants (truncate, delete/insert/replace chars, splice tokens such as PEEK[, {0}, "
+              "\\u{110000}, ^, #t =, unbalanced delimiters, out-of-range numbers up to 2^70 in PEEK[..], duplicated/deleted segments) of every "
+              ".pest/.grammar file in the repository; (ii) the same mutants of printed generator grammars (canonical and fuzzed spelling); "
+              "(iii) random strings and random token sequences over the meta-grammar's alphabet. Each text goes through parse_and_optimize and, "
+              "when the syntax stage accepts it, pest_generator::docs::consume, under set_call_limit(300000). Oracle: no panic; a non-empty "
+              "error list on failure; every error location is an ordered pair of char boundaries inside the text; Display and "
+              "renamed_rules(rename_meta_rule) render. Non-trivial: text >= 8 bytes; distinct = distinct texts; signatures = (outcome class, "
+              "mutation kind, source)."),
+        level_text=("Exploration: the real front-end is run on hostile near-miss grammars while the monitor watches for panics and checks every "
+                    "returned error. Time is bounded in logical steps by the repository's own call-limit mechanism."),
+        level_note="Texts whose repetition counts exceed 64 or multiply beyond 50,000 are outside the statement's premise (bounded counts) and are skipped and counted.",
+        technique="runtime monitoring: panic/abort monitor and error-location checker over mutated real grammars, mutated generated grammars and random token strings, both feature configurations",
+        assumptions=["the unmodified corpus files fuzzsample*.grammar are fed only as mutation bases (fuzzsample2 is a known exponential-backtracking input that the call limit cuts short)"],
+    ),
 }
 
 HOOK_COMMITS = [
